@@ -191,8 +191,15 @@ func (p *Peer) Receive(msg []byte) (out [][]byte, err error) {
 		return p.answerOffer(versions, "query")
 	}
 	if stripped, versions, found := FindWhitespaceTag(msg); found {
+		// The tagged message is a plaintext message in its own right: it is
+		// delivered (without the tag) whether or not we take up the offer.
 		p.Inbox = append(p.Inbox, Delivery{Text: stripped})
-		return p.answerOffer(versions, "whitespace-tag")
+		out, err := p.answerOffer(versions, "whitespace-tag")
+		var ce *CheckError
+		if errors.As(err, &ce) && ce.Ignored {
+			return nil, nil
+		}
+		return out, err
 	}
 	p.Inbox = append(p.Inbox, Delivery{Text: append([]byte{}, msg...)})
 	return nil, nil
